@@ -13,6 +13,7 @@ type ReplayFn = fn(&Value, &mut Tally);
 
 fn registry() -> Vec<(&'static str, RunFn, ReplayFn)> {
     vec![
+        ("C02", props::c02::run, props::c02::replay),
         ("C03", props::c03::run, props::c03::replay),
         ("C04", props::c04::run, props::c04::replay),
         ("C05", props::c05::run, props::c05::replay),
